@@ -73,6 +73,18 @@ func (c *vT) checkC05(q string) {
 	b2, _ := st2.Marshal()
 	vAssert(vNativeTrue(bytes.Equal(b1, b2)), "C05.remarshal-same-bytes(native)")
 	vAssert(len(b1) == pbcmpl.Size(c.st.inner), "C05.size")
+	// loaded from a larger region (the stream followed by unrelated bytes, as inside a file): the same
+	// answers, and re-marshalling gives the index alone, not the region
+	region := append(append([]byte{}, b1...), vBytes("trail", 9)...)
+	st4, _ := NewSlimTrie(c.encoder(), nil, nil)
+	err4 := st4.Unmarshal(region)
+	vAssert(err4 == nil, "C05.load-from-region")
+	if err4 == nil {
+		c.sameAnswers(c.st, st4, q, "C05.region")
+		b4, _ := st4.Marshal()
+		vAssert(len(b4) == len(b1), "C05.region.remarshal-size")
+		vAssert(vNativeTrue(bytes.Equal(b1, b4)), "C05.region.remarshal-same-bytes(native)")
+	}
 	// determinism of construction: a second build from equal input, map iteration order free
 	reps := vNativeReps(16)
 	if vParamDef("det", 1) == 0 {
